@@ -62,7 +62,7 @@ MaxK(W, lo, w, s) == ((W - lo - w) \div s) + 1
 ArrFields(W) ==
   SetToSeq({ArrFld(e[1], e[2], e[3], lo, K, IF sd = 0 THEN <<>> ELSE <<e[2] + sd>>, "rw") :
      <<e, lo, sd, K>> \in
-       {<<e, lo, sd, K>> \in ArrElems \X {0, 1} \X {0, 1, 3} \X (2..128) :
+       {<<e, lo, sd, K>> \in ArrElems \X {0, 1} \X {0, 1, 3, 8} \X (2..128) :
           /\ MaxK(W, lo, e[2], e[2] + sd) >= 2
           /\ K \in {2, 3, MaxK(W, lo, e[2], e[2] + sd)} /\ K <= MaxK(W, lo, e[2], e[2] + sd)}})
 QArr == [k \in 1..Cardinality(ArrBases) |->
@@ -137,9 +137,10 @@ CustDecl(W, w) ==
       arrs == (IF 2 * w <= W THEN <<Fld("f", "optenum", w, 1, << <<0, w - 1>> >>, FALSE, <<2>>, <<>>, "rw")>> ELSE <<>>)
               \o (IF 2 * w < W THEN <<Fld("f", "optenum", w, 1, << <<W - 2 * w, W - w - 1>> >>, FALSE, <<2>>, <<>>, "rw")>> ELSE <<>>)
               \o (IF 2 * w + 3 < W THEN <<Fld("f", "optenum", w, 1, << <<1, w>> >>, FALSE, <<2>>, <<w + 1>>, "rw")>> ELSE <<>>)
+      long == IF W >= 100 /\ w <= 17 THEN <<Fld("f", "optenum", w, 1, << <<1, w>> >>, FALSE, <<(W - 1) \div (w + 2)>>, <<w + 2>>, "rw")>> ELSE <<>>
       nc   == IF w >= 2 /\ w + 1 <= W
               THEN <<Fld("f", "optenum", w, 1, << <<W - 1, W - 1>>, <<0, w - 2>> >>, TRUE, <<>>, <<>>, "rw")>> ELSE <<>>
-  IN MkDecl(W, <<>>, NameFields(scal \o arrs \o nc), en, <<>>, FALSE)
+  IN MkDecl(W, <<>>, NameFields(scal \o arrs \o long \o nc), en, <<>>, FALSE)
 NestDecl(W, w) ==
   MkDecl(W, <<>>, NameFields(SetToSeq({Fld("f", k, w, ty, << <<lo, lo + w - 1>> >>, FALSE, <<>>, <<>>, "rw") :
              <<k, ty, lo>> \in {<<k, ty, lo>> \in {"nested", "uarb", "unat"} \X {0, 1} \X Places(W, w) :
